@@ -29,7 +29,7 @@ ASSUMPTIONS = [
     "the direct calls use float64 / datetime64[ns] arrays; carrier independence is C15's subject",
 ]
 FRONTENDS = ["pandas", "numpy_dict", "numpy_array", "xarray_coord", "xarray_var", "netcdf", "qcconfig", "netcdf_path",
-             "xarray_path"]
+             "xarray_path", "xarray_coord_axes"]
 NEIGHBOUR = {"spike_test", "rate_of_change_test", "flat_line_test", "attenuated_signal_test", "density_inversion_test",
              "speed_test", "pressure_increasing_test", "location_test"}
 
@@ -157,8 +157,8 @@ def run_frontend(fe, case):
         if fe == "numpy_array":
             first = next(iter(tbl["cols"]))
             return observe(list(NumpyStream(inp=sg.np_col(tbl["cols"][first]), time=tarr, **axes).run(Config(cfg)))), first
-        if fe in ("xarray_coord", "xarray_var"):
-            ds = sg.make_xr(tbl, "coord" if fe == "xarray_coord" else "var")
+        if fe in ("xarray_coord", "xarray_var", "xarray_coord_axes"):
+            ds = sg.make_xr(tbl, {"xarray_coord": "coord", "xarray_var": "var", "xarray_coord_axes": "coord_axes"}[fe])
             return observe(list(XarrayStream(ds).run(Config(cfg)))), None
         if fe == "netcdf":
             ds = sg.make_xr(tbl, "coord")
@@ -276,7 +276,8 @@ def check_stream(case, rec):
             continue
         site = {"pandas": "PandasStream.run", "numpy_dict": "NumpyStream.run(dict)", "numpy_array": "NumpyStream.run(array)",
                 "xarray_coord": "XarrayStream.run", "xarray_var": "XarrayStream.run(time as data variable)",
-                "netcdf": "NetcdfStream.run", "netcdf_path": "NetcdfStream.run(path)", "xarray_path": "XarrayStream.run"}[fe]
+                "netcdf": "NetcdfStream.run", "netcdf_path": "NetcdfStream.run(path)", "xarray_path": "XarrayStream.run",
+                "xarray_coord_axes": "XarrayStream.run"}[fe]
         del sg.PROBE_LOG[:]
         try:
             got, single = run_frontend(fe, case)
@@ -295,7 +296,7 @@ def check_stream(case, rec):
             kind = "count" if len(got) != len(want) else "content"
             sub_differs = sorted(canon(g["mask"]) for g in got) != sorted(canon(w["mask"]) for w in want)
             explained = []
-            if fe in ("xarray_coord", "xarray_var", "xarray_path") and sub_differs:
+            if fe in ("xarray_coord", "xarray_var", "xarray_path", "xarray_coord_axes") and sub_differs:
                 dev = set()
                 alt, _ = expected(case, single, "var" if fe == "xarray_var" else "coord", dev)
                 if ms(alt) == ms(got):
